@@ -98,6 +98,32 @@ def _const_guarded(run, fi, cfg, node, recv: str) -> bool:
     return False
 
 
+def _only_own_grad(cfg, e, at, recv, depth) -> bool:
+    """`e` evaluates to None or to (a copy of) what `<recv>.grad` reports -- nothing else flows into it"""
+    from ..cfg import reaching_defs, ENTRY as _ENTRY
+    if depth > 5:
+        return False
+    if isinstance(e, ast.Constant) and e.value is None:
+        return True
+    if isinstance(e, ast.Attribute):
+        return norm(e) == f"{recv}.grad"
+    if isinstance(e, ast.IfExp):
+        return _only_own_grad(cfg, e.body, at, recv, depth + 1) and _only_own_grad(cfg, e.orelse, at, recv, depth + 1)
+    if isinstance(e, ast.Call):
+        d = dotted(e.func) or ""
+        if d.split(".")[-1] in ("copy", "array", "asarray", "ascontiguousarray") and d.split(".")[0] in ("np", "numpy") and e.args:
+            return _only_own_grad(cfg, e.args[0], at, recv, depth + 1)
+        if isinstance(e.func, ast.Attribute) and e.func.attr in ("copy", "astype") and not d.startswith(("np.", "numpy.")):
+            return _only_own_grad(cfg, e.func.value, at, recv, depth + 1)
+        return False
+    if isinstance(e, ast.Name):
+        defs = reaching_defs(cfg, e.id, at)
+        return bool(defs) and _ENTRY not in defs and all(
+            getattr(cfg.stmt[d], "value", None) is not None and not isinstance(cfg.stmt[d], ast.AugAssign)
+            and _only_own_grad(cfg, cfg.stmt[d].value, d, recv, depth + 1) for d in defs)
+    return False
+
+
 def r10_2(run):
     n = 0
     for fi, mod, st, t, val, kind in tensor_grad_stores(run):
@@ -113,7 +139,7 @@ def r10_2(run):
         ok = _const_guarded(run, fi, cfg, node, recv)
         why = f"dominated by the non-constant edge of a `{recv}.constant` test"
         construct = f"value store to {recv}._grad"
-        if not ok and val is not None and norm(val) == f"{recv}.grad":
+        if not ok and val is not None and _only_own_grad(cfg, val, node, recv, 0):
             # the tensor's own slot is set to what its grad property already reports; a constant tensor reports None
             # (owners never receive a gradient, views: the getter's constant guard, checked below)
             ok, why = True, f"re-stores {recv}.grad, the value the tensor itself reports (None for constant tensors: obligation discharged at the getter)"
@@ -333,10 +359,10 @@ def check(run):
     run.rule("R10.7", "no function accepts `constant` without using it", floor=100)
     run.rule("R10.6", "an operand that is re-wrapped (expand_dims/astensor...) with constant=<X>.constant uses its own flag", floor=2)
     run.rule("R10.5", "all wrappers forward constant=; in-place targets keep their flag", floor=80)
-    r10_1(run)
-    r10_2(run)
-    r10_3(run)
-    r10_4(run)
-    r10_5(run)
-    r10_6(run)
-    r10_7(run)
+    run.do(r10_1)
+    run.do(r10_2)
+    run.do(r10_3)
+    run.do(r10_4)
+    run.do(r10_5)
+    run.do(r10_6)
+    run.do(r10_7)
